@@ -196,9 +196,9 @@ func (c *cluster) apply(a vAct) {
 			case "", "main":
 				pokeTimer(n.r.timer)
 			case "xfer":
-				if n.r.ldr != nil {
-					pokeTimer(n.r.ldr.transfer.timer)
-				}
+				// not generated: the transfer timer and the deadline of the timeout-now
+				// RPC are derived from the same clock reading; firing only the timer
+				// early would break a coupling the code may rely on
 			case "newterm":
 				if n.r.ldr != nil {
 					pokeTimer(n.r.ldr.transfer.newTermTimer)
